@@ -9,6 +9,7 @@ def answer (line : String) : String :=
     match fam with
     | "hsm" => hsmLine toks
     | "hsmspec" => hsmSpecLine toks
+    | "q" => qLine toks
     | _ => "bad-family"
   | [] => "bad-line"
 
